@@ -105,6 +105,7 @@ class FitDouble:
 
     def __init__(self, ctx=None, inf_dof=None, strict=False):
         self.fits = []
+        self.returned = []
         self.ctx = ctx
         self.inf_dof = inf_dof
         self.strict = strict  # enforce the precondition of the real fit: at least d + 1 distinct points
@@ -125,6 +126,7 @@ class FitDouble:
                 dof = np.inf
         elif self.inf_dof is not None and j < len(self.inf_dof) and self.inf_dof[j]:
             dof = np.inf
+        self.returned.append((j, dof))
         return np.full(d, 0.1 * (j + 1)), 0.01 * np.eye(d), dof
 
 
